@@ -11,6 +11,9 @@ sys.path.insert(0, str(ROOT))
 READY = set((ROOT / "tools" / "ready.txt").read_text().split())
 known = json.loads((ROOT / "known_findings.json").read_text())["findings"]
 out = []
+nseeds = len(list((ROOT / "seeded").glob("*/meta.json")))
+out.append(f"Seeded changes stored: {nseeds}.")
+out.append("")
 out.append("| id | in manifest | level | property theorems (Print Assumptions audited) | findings (known / fixed) | seeded changes (caught/total) |")
 out.append("|---|---|---|---|---|---|")
 details = []
